@@ -17,7 +17,7 @@ from fractions import Fraction
 
 from .common import RefError
 
-CHART_KEYS = {"dance-single": 4, "dance-double": 8, "dance-solo": 6, "dance-couple": 4, "dance-threepanel": 3,
+CHART_KEYS = {"dance-single": 4, "dance-double": 8, "dance-solo": 6, "dance-couple": 8, "dance-threepanel": 3,
               "dance-routine": 8, "kb7-single": 7}
 SYMBOLS = {"1": "hits", "M": "mines", "L": "lifts", "F": "fakes", "K": "keysounds"}
 HEADER_TAGS = {
